@@ -245,8 +245,7 @@ theorem addPath_spec (v : JS) (hv : isObj v = false) :
       have hstep : addPath v (k :: k2 :: rest2) (some (.obj ms)) =
           match addPath v (k2 :: rest2) (lookupKey k ms) with
           | none => none
-          | some sub => some (.obj (if (lookupKey k ms).isSome then updateFirst k sub ms else ms ++ [(k, sub)])) := by
-        simp [addPath, parentMembers]
+          | some sub => some (.obj (if (lookupKey k ms).isSome then updateFirst k sub ms else ms ++ [(k, sub)])) := rfl
       rw [hstep]
       cases hl : lookupKey k ms with
       | none =>
@@ -262,10 +261,9 @@ theorem addPath_spec (v : JS) (hv : isObj v = false) :
           · exact Or.inr h
           · have := (hs4 a b).mp hab
             simp only [flattenMembers, List.not_mem_nil, or_false, Prod.mk.injEq] at this
-            obtain ⟨rfl, rfl⟩ := this
-            exact Or.inl ⟨rfl, rfl⟩
+            exact Or.inl ⟨by rw [this.1], this.2⟩
         · rintro (⟨rfl, rfl⟩ | h)
-          · exact Or.inr ⟨k2 :: rest2, v, (hs4 _ _).mpr (Or.inl rfl), rfl, rfl⟩
+          · exact Or.inr ⟨k2 :: rest2, _, (hs4 _ _).mpr (Or.inl rfl), rfl, rfl⟩
           · exact Or.inl h
       | some x =>
         obtain ⟨h1, h2⟩ := lookup_related ms hw k x hl
@@ -407,5 +405,102 @@ theorem getPath_of_mem :
     | str s => simp [flattenVal] at hx; obtain ⟨rfl, rfl⟩ := hx; simp [getPath, hl]
     | num a => simp [flattenVal] at hx; obtain ⟨rfl, rfl⟩ := hx; simp [getPath, hl]
     | arr is => simp [flattenVal] at hx; obtain ⟨rfl, rfl⟩ := hx; simp [getPath, hl]
+
+/-! ## path syntax, flat names -/
+
+theorem toStructure_not_obj (v : JVal) : isObj (toStructure v) = false := by
+  cases v with
+  | tern t => cases t with
+    | none => rfl
+    | some b => rfl
+  | _ => rfl
+
+theorem parseMember_ne (n : Nat) (s : List Char) (segs : List (List Char)) (h : parseMember n s = some segs) :
+    segs ≠ [] := by
+  cases n with
+  | zero => simp [parseMember] at h
+  | succ n =>
+    cases s with
+    | nil => simp [parseMember] at h
+    | cons c rest =>
+      simp only [parseMember] at h
+      split at h
+      · cases h
+      · split at h
+        · injection h with h; subst h; simp
+        · split at h
+          · injection h with h; subst h; simp
+          · cases h
+
+/-- a name without '.' and backslash -/
+def FlatName (s : List Char) : Prop := ∀ c ∈ s, c ≠ '.' ∧ c ≠ '\\'
+
+theorem scanSegTail_plain (c : Char) (rest : List Char) (h1 : c ≠ '.') (h2 : c ≠ '\\') :
+    scanSegTail (c :: rest) = ((c :: (scanSegTail rest).1), (scanSegTail rest).2) := by
+  cases rest with
+  | nil => simp [scanSegTail, h1, h2]
+  | cons d r => simp [scanSegTail, h1, h2]
+
+theorem unescSeg_plain (c : Char) (rest : List Char) (h2 : c ≠ '\\') : unescSeg (c :: rest) = c :: unescSeg rest := by
+  cases rest with
+  | nil => simp [unescSeg, h2]
+  | cons d r => simp [unescSeg, h2]
+
+theorem scanSegTail_flat (s : List Char) (h : FlatName s) : scanSegTail s = (s, []) := by
+  induction s with
+  | nil => rfl
+  | cons c cs ih =>
+    obtain ⟨h1, h2⟩ := h c (by simp)
+    rw [scanSegTail_plain c cs h1 h2, ih (fun x hx => h x (by simp [hx]))]
+
+theorem unescSeg_flat (s : List Char) (h : FlatName s) : unescSeg s = s := by
+  induction s with
+  | nil => rfl
+  | cons c cs ih =>
+    obtain ⟨_, h2⟩ := h c (by simp)
+    rw [unescSeg_plain c cs h2, ih (fun x hx => h x (by simp [hx]))]
+
+theorem parsePath_flat (s : List Char) (h : FlatName s) : parsePath s = some [s] := by
+  cases s with
+  | nil => rfl
+  | cons c cs =>
+    obtain ⟨h1, _⟩ := h c (by simp)
+    have ht := scanSegTail_flat cs (fun x hx => h x (by simp [hx]))
+    simp [parsePath, parseMember, h1, ht, unescSeg_flat (c :: cs) h]
+
+theorem mapMOpt_parsePath_flat (hd : List (List Char)) (h : ∀ s ∈ hd, FlatName s) :
+    mapMOpt parsePath hd = some (hd.map fun s => [s]) := by
+  induction hd with
+  | nil => rfl
+  | cons s ss ih =>
+    simp [mapMOpt, parsePath_flat s (h s (by simp)), ih (fun x hx => h x (by simp [hx]))]
+
+theorem buildRow_flat (ks : List (List Char)) :
+    ∀ (vs : List JS) (ms : List (List Char × JS)), ks.length = vs.length →
+      buildRow (ks.map fun s => [s]) vs ms = some (ms ++ ks.zip vs) := by
+  induction ks with
+  | nil =>
+    intro vs ms hlen
+    cases vs with
+    | nil => simp [buildRow]
+    | cons v vs => simp at hlen
+  | cons k ks ih =>
+    intro vs ms hlen
+    cases vs with
+    | nil => simp at hlen
+    | cons v vs =>
+      simp only [List.map_cons, buildRow, addPath, parentMembers]
+      rw [ih vs _ (by simpa using hlen)]
+      simp
+
+theorem mapMOpt_rowObjP_flat (hd : List (List Char)) (rows : List (List JVal))
+    (hr : ∀ r ∈ rows, r.length = hd.length) :
+    mapMOpt (rowObjP (hd.map fun s => [s])) rows = some (rows.map (rowObj hd)) := by
+  induction rows with
+  | nil => rfl
+  | cons r rs ih =>
+    have h1 : rowObjP (hd.map fun s => [s]) r = some (rowObj hd r) := by
+      simp [rowObjP, rowObj, buildRow_flat hd (r.map toStructure) [] (by simp [hr r (by simp)])]
+    simp [mapMOpt, h1, ih (fun x hx => hr x (by simp [hx]))]
 
 end Csvq.Json
